@@ -190,7 +190,8 @@ func Check(tr *Trace, w Which) ([]Finding, Classes) {
 		}
 
 		// --- C19 time decisions for this call, made on the buffer as it stands before the callbacks ---
-		if w.C19 && !closed && (op.Kind == OpMaintain || op.Kind == OpPushMsg || op.Kind == OpPushRaw) {
+		// (a push keeps evicting after Close; a Maintain after Close is refused and decides nothing)
+		if w.C19 && (op.Kind == OpPushMsg || op.Kind == OpPushRaw || (op.Kind == OpMaintain && !closed)) {
 			// copy of the open set to walk
 			tmp := map[uint32]*inst{}
 			for s, e := range open {
